@@ -173,29 +173,60 @@ Proof.
 Qed.
 Print Assumptions C01_progress.
 
-(** ** Closing: the other side's reads end *)
+(** ** Closing: the other side's pending and later reads end *)
 
-(** Wherever the system can go no further after either side closed, the
-    application's and the client's reads have returned, both copy loops have
-    ended and both connections are closed; until then some step is enabled;
-    and no execution has more than eight steps. *)
+(** With JoinConn's policy as regenerated from the source (a returning copy
+    loop runs closeAll, which closes both connections): wherever the system
+    can go no further after either side closed - even if nobody writes any
+    more - the application's and the client's pending Reads and the Reads they
+    issue afterwards have returned, both copy loops have ended and both
+    connections are closed; until then some step is enabled; and no execution
+    has more than eleven steps. *)
 Theorem C01_close_ends_reads :
-  (forall s, quiescent s = true -> cc s = true \/ ac s = true ->
-     ra s = true /\ rc s = true /\ g1 s = true /\ g2 s = true /\ fp s = true /\ rp s = true) /\
-  (forall s, cc s = true \/ ac s = true -> ra s = false \/ rc s = false ->
-     exists r, In r system_rules /\ enabled r s = true) /\
-  (forall rs s s', run_rules s rs = Some s' -> (List.length rs <= 8)%nat).
-Proof. exact (conj close_ends_reads (conj never_stuck run_length_bound)). Qed.
+  (forall s, quiescent gen_close_policy s = true -> cc s = true \/ ac s = true ->
+     ra s = true /\ ra2 s = true /\ rc s = true /\ rc2 s = true /\
+     g1 s = true /\ g2 s = true /\ fp s = true /\ rp s = true) /\
+  (forall s, cc s = true \/ ac s = true ->
+     ra s = false \/ ra2 s = false \/ rc s = false \/ rc2 s = false ->
+     exists r, In r read_rules /\ enabled CloseBoth r s = true) /\
+  (forall p rs s s', run_rules p s rs = Some s' -> (List.length rs <= 11)%nat).
+Proof.
+  exact (conj (fun s => close_ends_reads gen_close_policy s gen_close_policy_both)
+          (conj never_stuck run_length_bound)).
+Qed.
 Print Assumptions C01_close_ends_reads.
+
+(** The dependency, explicit.  sideConn.Read forgets the end marker: once the
+    websocket is closed no Read ever blocks, but while it stays open and
+    silent a Read after the end marker blocks; so under a JoinConn that only
+    passed the end marker on, the application's later Reads would be
+    stranded.  The later-read clause of the property holds because, and only
+    because, closeAll closes the dialled connection. *)
+Theorem C01_later_reads_need_the_close :
+  (forall m ks s got e s' ks',
+     has_sticky (s_in s) = true -> side_read m ks s = (got, e, s', ks') ->
+     e <> SBlock /\ has_sticky (s_in s') = true) /\
+  (forall m ks r, side_read m ks (mkS None (MText :: r)) = ([], SEof, mkS None r, ks)) /\
+  (forall m ks, side_read m ks (mkS None []) = ([], SBlock, mkS None [], ks)) /\
+  (exists s,
+     run_rules HalfClose cinit [EClientClose; G1ReadEnds; CopyEnd; AppReadEnds; ClientReadEnds;
+                                ClientLaterReadEnds] = Some s /\
+     quiescent HalfClose s = true /\ cc s = true /\ ra s = true /\ ra2 s = false).
+Proof.
+  exact (conj side_read_closed_never_blocks (conj text_marker_is_forgotten
+          (conj later_read_blocks_while_open half_close_strands_later_reads))).
+Qed.
+Print Assumptions C01_later_reads_need_the_close.
 
 (** ** The code the models were written against is the code in the tree *)
 Theorem C01_source_tie :
   0 < gen_side_chunk /\ gen_side_chunk <= gen_ws_write_buf /\
   copy_buf <= gen_max_read_size /\ 5 <= gen_hello_buf_size /\
+  gen_close_policy = CloseBoth /\
   src_diff gen_stream_src frozen_stream_src = [].
 Proof.
   exact (conj gen_side_chunk_pos (conj gen_side_chunk_fits (conj gen_copy_fits_read_cap
-          (conj gen_hello_cap_ge5 gen_stream_src_frozen)))).
+          (conj gen_hello_cap_ge5 (conj gen_close_policy_both gen_stream_src_frozen))))).
 Qed.
 Print Assumptions C01_source_tie.
 
@@ -247,7 +278,20 @@ Proof. vm_compute. split; [reflexivity|discriminate]. Qed.
 
 (** Client closes: a run of the close system to quiescence. *)
 Example C01_nonvacuous_close :
-  run_rules cinit [EClientClose; G1ReadEnds; CloseAll; AppReadEnds; G2ReadEnds; ClientReadEnds]
-  = Some (mkC true false true true true true true true) /\
-  quiescent (mkC true false true true true true true true) = true.
+  run_rules gen_close_policy cinit
+    [EClientClose; G1ReadEnds; CopyEnd; AppReadEnds; AppLaterReadEnds; G2ReadEnds;
+     ClientReadEnds; ClientLaterReadEnds]
+  = Some (mkC true false true true true true true true true true true) /\
+  quiescent gen_close_policy (mkC true false true true true true true true true true true) = true.
 Proof. split; reflexivity. Qed.
+
+(** After data and the end marker, with the connection then closed: data,
+    EOF, and every later Read returns an error at once; with the connection
+    left open the later Read would block. *)
+Example C01_nonvacuous_later_reads :
+  side_reads [8; 8; 8; 8] [] (mkS None [MBin [1; 2]; MText; MErr])
+    = ([[1; 2]; []], SEof, mkS None [MErr]) /\
+  side_read 8 [] (mkS None [MErr]) = ([], SErr, mkS None [MErr], []) /\
+  side_reads [8; 8] [] (mkS None [MBin [1; 2]; MText]) = ([[1; 2]; []], SEof, mkS None []) /\
+  side_read 8 [] (mkS None []) = ([], SBlock, mkS None [], []).
+Proof. repeat split. Qed.
